@@ -684,7 +684,7 @@ class EipEndpoint:
             rep = module.mr_dispatch(req, mctx)
             out = build_cpf([(0, b""), (0x00B2, rep)], tmo=tmo)
             self.reply(build_encap(cmd, session, 0, ctx8, out),
-                       {"kind": "rr", "service": req.service, "mr_off": 24 + 16})
+                       {"kind": "rr", "service": rep[0] & 0x7F if rep else None, "mr_off": 24 + 16})
             return
         # SendUnitData
         if at != 0x00A1 or len(ad) != 4 or dt != 0x00B1 or len(dd) < 2:
@@ -744,4 +744,4 @@ class EipEndpoint:
     def _send_connected(self, c, seq, rep, cmd, session, ctx8, tmo, req):
         out = build_cpf([(0x00A1, struct.pack("<I", c.t2o_id)), (0x00B1, struct.pack("<H", seq) + rep)], tmo=tmo)
         self.reply(build_encap(cmd, session, 0, ctx8, out),
-                   {"kind": "unit", "service": req.service if req is not None else None, "mr_off": 24 + 22})
+                   {"kind": "unit", "service": rep[0] & 0x7F if rep else None, "mr_off": 24 + 22})
